@@ -285,6 +285,7 @@ static int contains_bad_chars(const uint8_t *sym, int issym) {
         /* Symbols whose text would be read back as another value (nothing, a number, nil, true, false) */
         double num;
         if (len == 0) return 1;
+        if (sym[0] == ':') return 1; /* would read back as a keyword */
         if (!janet_scan_number(sym, len, &num)) return 1;
         if (!janet_cstrcmp(sym, "nil") || !janet_cstrcmp(sym, "true") || !janet_cstrcmp(sym, "false")) return 1;
     }
